@@ -13,7 +13,7 @@ CHECK = dict(
          "target pre-state absent / empty / raw layout of the graph (complete or partial, tagged only or every manifest listed; as other tools write it: full image name in ref.name, io.containerd.image.name, an entry listed twice, no tagged entry at all; planted files: *.tmp, unreferenced blobs, objects under another algorithm directory, non-digest non-temporary files); system = RegClient (GC on) | bare "
          "ocidir scheme (GC on) | ocidir.New(WithGC(false)). Every history ends with a push of an unreferenced blob and a Close. Part B (job conc): one evaluation = "
          "one schedule of 2-4 goroutines on one client running 2-5 ImageCopy calls of nodes of one graph (each from its own source repository into its own tag of "
-         "ONE layout; sparse / referrers / digest-tags / source faults that fail one copy while others run) interleaved with Close(target) steps (live / cancelled / expired / concurrently cancelled context), Close(target) "
+         "ONE layout; sparse / referrers / digest-tags / source faults that fail one copy while others run; copies with referrers also with ImageWithReferrerTgt = the same layout under another reference / a SECOND layout / a registry repository and ImageWithReferrerSrc = another layout / registry repository holding the referrers; Close steps and in-copy closes on both layouts, each layout judged by itself, both must collect after the run) interleaved with Close(target) steps (live / cancelled / expired / concurrently cancelled context), Close(target) "
          "from inside every k-th / chosen source requests and progress callbacks of running copies, per-request latency plan, start pauses, GOMAXPROCS. "
          "Non-trivial = (A) some Close with a collection due follows a delete / overwrite that made previously reachable files unreachable while other content "
          "stays reachable; (B) >= 2 copies overlapped and >= 1 Close ran from inside a copy. Distinct by the whole case.",
